@@ -1,0 +1,27 @@
+//go:build verif
+
+// Machine-checked contracts of the Processing contract (comment-only; read by the
+// verifier in /verif, ignored by every compiler because of the build tag).
+
+package processing
+
+/*@
+module authz
+props C03 C16
+use common core
+dialect neovm
+// Authorisation table (C03): one line per exported method with the witness its documentation requires.
+// Checked by the zero-annotation sweep: on every normal exit that changed state (storage write,
+// notification, state-changing call) the formula holds; `safe` methods never change state.
+// alphabet() = 2/3+1 multisig of the chain committee, cmtaddr() = its majority multisig.
+
+witness Update [C03,C16] : W(MS(len(designated()) / 2 + 1, designated()))
+safe OnNEP17Payment [C03]
+safe Verify [C03]
+safe Version [C03]
+
+// verify accepts only the witness of the address returned by the NeoFS contract's alphabetAddress (2/3+1 multisig of its stored keys)
+func Verify() (r)
+  ensures [C03] r == W(asbytes(cres("alphabetAddress", old(xcalls("alphabetAddress")).len)))
+  ensures [C03] store == old(store) && notifs == old(notifs)
+@*/
